@@ -4,9 +4,9 @@ import resource, sys, os
 from rfbgen import *  # noqa
 
 ID = "C15"
-PROOF_MODULES = ["VncProofs.C01", "VncProofs.Framing"]
+PROOF_MODULES = ["VncProofs.C01", "VncProofs.Framing", "VncProofs.C15Sys"]
 THEOREMS = ["Vnc.rfb_progress", "Vnc.C15_no_spin", "Vnc.C15_no_spin_all", "Vnc.C15_steps_linear", "Vnc.C15_empty_reason",
-            "Vnc.C15_empty_name", "Vnc.C15_empty_cuttext", "Vnc.C15_zero_colours", "Vnc.C15_dead_stays", "Vnc.drain_enough", "Vnc.drainSteps_le", "Vnc.framing_constants_need"]
+            "Vnc.C15_empty_name", "Vnc.C15_empty_cuttext", "Vnc.C15_zero_colours", "Vnc.C15_dead_stays", "Vnc.drain_enough", "Vnc.drainSteps_le", "Vnc.framing_constants_need", "Vnc.C15_sys_no_spin", "Vnc.C15_sys_no_spin_all", "Vnc.C15_sys_steps_linear"]
 TRUSTED = [
     "Lean 4.33 kernel; standard axioms only. The model is total Lean: termination of every handler-internal loop (sub-rectangle loops, the ZRLE tile/run/palette loops) is checked by the kernel through structural recursion / fuel that is at least the remaining input",
     "VncModel/Rfb.lean is tied to rfb.py by the correspondence run: hostile and grammar-derived streams, outputs compared up to the first close/raise, exception classes included",
